@@ -13,6 +13,18 @@ WH_NOTE = ("trusted: Coq 8.16.1 kernel (no axioms: Print Assumptions is 'Closed 
            "execution; Vec/VecDeque/hashbrown/serde modelled by contract; archetype-table order is an oracle input")
 
 CLAIMED = {
+    "C11": dict(engine="world-histories",
+                text="Proved for ALL serialized content (identifier bytes, declared lengths, rows, allocator length, free list, "
+                     "resources): de_content returns an error or a world satisfying Inv, from which no history gets stuck; the "
+                     "padding check as written in u8 arithmetic is exact (finite table); what the serializer writes decodes to "
+                     "itself (registries <= 16, finite check). The harness mutates the real content of reachable worlds (21 mutation "
+                     "kinds: duplicated/foreign/missing identifiers, free-and-stored, lengths, identifier bytes and padding bits, "
+                     "short/long/ill-typed rows, duplicated/removed/empty archetypes), encodes it in both encodings, runs the real "
+                     "deserializer, compares verdict and resulting world with the model, audits created vs dropped values after "
+                     "every failed attempt. Known finding F9 (class K11). PARTIAL: token-level malformation other than an ill-typed "
+                     "value is left to serde; no undefined behaviour is *proved* absent at the raw-parts level (see C05/C17).",
+                technique="Rocq proof that every accepted content yields an Inv world (all inputs) + content-mutation differential execution against the real deserializer with drop audit",
+                ref="DESIGN.md §7 C11"),
     "C03": dict(engine="world-histories",
                 text="Proved for every Inv world, any views (any kinds/order/identifier/empty) and any filter: the query as the code "
                      "performs it (And<Views,Filter> on the identifier bits through the regenerated tables, column chosen by walking "
@@ -155,7 +167,7 @@ def main():
         })
     engines = [
         {"name": "world-histories", "path": "lib/wh.py",
-         "serves_properties": ["C01", "C02", "C03", "C04", "C06", "C10", "C13", "C15", "C16"],
+         "serves_properties": ["C01", "C02", "C03", "C04", "C06", "C10", "C11", "C13", "C15", "C16"],
          "kind_free_text": "random+corpus operation histories run on the real library (harness/src/bin/wh.rs) and on the "
                            "extracted Gallina model (extract/wh_driver.ml), compared step by step; spec-side oracles "
                            "(reference map, structural invariant, ledger, equality, independence) on the implementation trace"},
